@@ -3,6 +3,7 @@ import RV.C15.LemmasStore
 import RV.C15.LemmasAlg
 import RV.C15.LemmasInit2
 import RV.C15.LemmasTD2
+import RV.C15.LemmasTD3
 /-
   C15 — property theorems (statements first, as `def Statement_… : Prop`, then the proofs).
 
@@ -378,6 +379,51 @@ theorem td_join_swap_witness : ¬ Statement_td_join_swap := by
   revert this
   decide
 
+/-! ## 7. initBindings against a VALUES row, for the evaluator as it runs, through OPTIONAL and UNION -/
+
+/-- `Graph.query("SELECT pv { B0 tail* }", initBindings=κ)`, tails = `OPTIONAL { B [FILTER e] }` | `{B1} UNION {B2}`,
+    over a graph given as a list of triples -/
+def evalInitT {n : Nat} (g : List Triple) (κ : Row n) (pv : List (Fin n)) (ts0 : List (TP n)) (tails : List (Tail n)) :
+    List (Row n) :=
+  evalSelectTD { dflt := graphStore g, named := [] } κ pv (buildT ts0 tails)
+
+/-- the same query with `VALUES (dom κ) { (κ) }` at the end of its group, no initBindings -/
+def evalValuesT {n : Nat} (g : List Triple) (κ : Row n) (pv : List (Fin n)) (ts0 : List (TP n)) (tails : List (Tail n)) :
+    List (Row n) :=
+  evalSelectTD { dflt := graphStore g, named := [] } Row.empty pv (.join (buildT ts0 tails) (.values [κ]))
+
+/-- initBindings for variables the outermost BGP binds = a VALUES row for them, with any number of OPTIONAL (with or
+    without a filter of their own) and UNION elements after the outermost BGP — evaluated as rdflib evaluates
+    (bindings pushed into the OPTIONAL parts and UNION branches, the OPTIONAL re-check, `forget`, `thaw`). -/
+def Statement_initbindings_values_td : Prop :=
+  ∀ (n : Nat) (g : List Triple) (κ : Row n) (pv : List (Fin n)) (ts0 : List (TP n)) (tails : List (Tail n)),
+    (∀ v, κ v ≠ none → v ∈ bgpVars ts0) → (evalInitT g κ pv ts0 tails).Perm (evalValuesT g κ pv ts0 tails)
+
+/-- proved when every join of the tree is evaluated lazily (`tailsLazy`: any number of OPTIONAL tails, at most one
+    UNION tail — a second one is joined by `_join`, which the proof does not cover; no counterexample is known and
+    the `init` / `td` streams test it) -/
+theorem initbindings_values_td_partial :
+    ∀ (n : Nat) (g : List Triple) (κ : Row n) (pv : List (Fin n)) (ts0 : List (TP n)) (tails : List (Tail n)),
+      tailsLazy true tails = true → (∀ v, κ v ≠ none → v ∈ bgpVars ts0) →
+      (evalInitT g κ pv ts0 tails).Perm (evalValuesT g κ pv ts0 tails) := by
+  intro n g κ pv ts0 tails hl h
+  have c := SeedClaim.tails (ds := { dflt := graphStore g, named := [] }) tails (.bgp ts0)
+    (SeedClaim.bgp _ g κ ts0 h) hl
+  simp only [evalInitT, evalValuesT, evalSelectTD, buildT]
+  rw [values_join_eq_filter _ _ κ _ c.binds]
+  exact c.seed.map _
+
+/-- the side condition is needed on the evaluator as it runs, too: `{ ?x p ?y OPTIONAL { ?x q ?z } }` with
+    initBindings for `?z` (which the outermost BGP does not bind): the value restricts the OPTIONAL part and the
+    solution survives without it; the VALUES row, joined afterwards, removes the solution whose `?z` differs -/
+theorem initbindings_values_td_needs_outermost_binding :
+    let g : List Triple := [(1, 10, 2), (1, 11, 3)]
+    let κ : Row 3 := Row.empty.set 2 4
+    let tails : List (Tail 3) := [.opt [(.var 0, .const 11, .var 2)] none]
+    showRows (evalInitT g κ [0, 1, 2] [(.var 0, .const 10, .var 1)] tails) ≠
+      showRows (evalValuesT g κ [0, 1, 2] [(.var 0, .const 10, .var 1)] tails) := by
+  decide
+
 /-! ## non-vacuity: the hypotheses are met by concrete, non-trivial instances -/
 
 example : ExactlyOnce (graphStore [(1, 2, 3), (4, 2, 3), (3, 2, 1)]) [(1, 2, 3), (4, 2, 3), (3, 2, 1)] :=
@@ -452,5 +498,16 @@ example :
     subst hx
     exact ⟨_, graphStore_exactlyOnce (by decide)⟩
   · exact .minus (.leftJoin none (.bgp (List.Perm.swap _ _ _)) (.refl _)) (.refl _)
+
+/-- an initBindings instance through OPTIONAL and UNION that meets the side condition and restricts the answer -/
+example :
+    let g : List Triple := [(1, 10, 2), (3, 10, 2), (1, 11, 5), (2, 12, 6)]
+    let κ : Row 4 := Row.empty.set 0 1
+    let tails : List (Tail 4) := [.opt [(.var 0, .const 11, .var 2)] (some (.bound 2)),
+                                  .uni [(.var 1, .const 12, .var 3)] [(.var 1, .const 13, .var 3)]]
+    tailsLazy true tails = true ∧
+      showRows (evalInitT g κ [0, 1, 2, 3] [(.var 0, .const 10, .var 1)] tails) = [[some 1, some 2, some 5, some 6]] ∧
+      showRows (evalValuesT g κ [0, 1, 2, 3] [(.var 0, .const 10, .var 1)] tails) = [[some 1, some 2, some 5, some 6]] := by
+  decide
 
 end RV.C15
